@@ -227,7 +227,7 @@ func (e *c09Env) runCase(c c09Case, rnd *rand.Rand) {
 			s.StopProc(name, 5*time.Second)
 			return
 		}
-	default: // "serving", "serving-deep-pipeline", "serving-backend-queue-full", "serving-clients-being-recreated", "serving-after-host-replace": wait for the listener, open connections, put requests in flight
+	default: // "serving", "serving-deep-pipeline", "serving-backend-queue-full", "serving-every-backend-queue-full", "serving-clients-being-recreated", "serving-after-host-replace": wait for the listener, open connections, put requests in flight
 		up := false
 		for i := 0; i < 400 && !up; i++ {
 			if cc, err := net.DialTimeout("tcp", addr, time.Second); err == nil {
@@ -343,6 +343,13 @@ func (e *c09Env) runCase(c c09Case, rnd *rand.Rand) {
 				for k := 0; k < depth; k++ {
 					buf = append(buf, resp.CmdS("SET", fmt.Sprintf("k%d.%d", i, k), strings.Repeat("v", 1+rnd.Intn(2000)))...)
 				}
+				if c.Placement == "serving-every-backend-queue-full" && cl != nil {
+					// the same on every node (connection i fills node i), and then the proxy is made to ask for the slots info:
+					// whichever node it asks, the request waits for room in that node's queue
+					args := []string{"MGET"}
+					args = append(args, keysFor(cl, cl.Nodes[i%len(cl.Nodes)], 2600+rnd.Intn(400), fmt.Sprintf("qf%d", i))...)
+					buf = resp.CmdS(args...)
+				}
 				if c.Placement == "serving-backend-queue-full" {
 					// one multi-key request with more children than a backend client's queues hold (1024 pending + 1 in
 					// the writer's hand + 1024 sent): the session reader itself is parked in the send to the backend client
@@ -358,6 +365,11 @@ func (e *c09Env) runCase(c c09Case, rnd *rand.Rand) {
 			}
 		}
 		time.Sleep(time.Duration(10+rnd.Intn(40)) * time.Millisecond)
+		if c.Placement == "serving-every-backend-queue-full" && cl != nil {
+			time.Sleep(300 * time.Millisecond) // the queues are full
+			s.HostOp("host_add", name, hostsOf(seeds[:1])) // triggers a slots refresh, which parks in the send to a full backend client
+			time.Sleep(150 * time.Millisecond)
+		}
 		if c.Placement == "serving-clients-being-recreated" && cl != nil {
 			// every session keeps sending to every node while all backend connections are lost: the backend clients are being
 			// created again (one creation per node, queued on the registry lock) at the moment the service is stopped
@@ -664,6 +676,7 @@ func c09(r *ev.Run) {
 					c09Case{proto, "serving-clients-being-recreated", "responsive", 8, "stop"}, c09Case{proto, "serving-clients-being-recreated", "responsive", 8, "stop"},
 					c09Case{proto, "serving-clients-being-recreated", "responsive", 8, "stop"}, c09Case{proto, "serving-clients-being-recreated", "responsive", 8, "stop"},
 					c09Case{proto, "serving-clients-being-recreated", "responsive", 8, "stop"}, c09Case{proto, "serving-clients-being-recreated", "responsive", 8, "stop"},
+					c09Case{proto, "serving-every-backend-queue-full", "silent", 2, "stop"}, c09Case{proto, "serving-every-backend-queue-full", "not-reading", 2, "stop"},
 					c09Case{proto, "serving-backend-queue-full", "silent", 2, "stop"}, c09Case{proto, "serving-backend-queue-full", "not-reading", 1, "drain-then-stop"})
 			}
 			backs := []string{"silent", "not-reading", "closed"}
